@@ -209,7 +209,7 @@ def run_design(scn, layer="L2", order=None, nominal_height=None, manager=None):
     return out
 
 
-def fresh_simulate(scn, coords, height, layer="L2", hourly=None, construct_h=None):
+def fresh_simulate(scn, coords, height, layer="L2", hourly=None, construct_h=None, method="HYBRID"):
     """Independent re-simulation of a returned design, built the way the tool documents its final step:
     long-time g family at [min, mid, max] height, interpolated at ``height``, hybrid loads, fresh objects."""
     import ghedesigner.gfunction as gfm
@@ -239,7 +239,7 @@ def fresh_simulate(scn, coords, height, layer="L2", hourly=None, construct_h=Non
         ghe = ghx.GHE(v_b * n, bsp, m["bhe_type"], m["fluid"], b, m["pipe"], m["grout"], m["soil"], gf, sim,
                       hourly if hourly is not None else loads_for(scn))
         b.H = height
-        mx, mn = ghe.simulate(method=TimestepType.HYBRID)
+        mx, mn = ghe.simulate(method=TimestepType[method])
     return float(mx), float(mn), ghe
 
 
